@@ -54,7 +54,16 @@ class StrTable:
     return self.ids[s]
 
   def defs(self):
-    return "\n".join("Definition %s : string := %s." % (n, cstr(s)) for s, n in self.ids.items())
+    # Coq's string-literal interpretation is superlinear in the literal's length (a 45 kB literal
+    # takes 11 s), so long strings are written as a concatenation of short chunks.
+    out = []
+    for s, n in self.ids.items():
+      if len(s) <= 240:
+        out.append("Definition %s : string := %s." % (n, cstr(s)))
+      else:
+        chunks = [cstr(s[i:i + 200]) for i in range(0, len(s), 200)]
+        out.append("Definition %s : string := String.concat EmptyString [%s]." % (n, "; ".join(chunks)))
+    return "\n".join(out)
 
 
 def to_coq(p, st):
@@ -518,7 +527,7 @@ class Gen:
         decorators=tuple(decorators),
         slots=None if r.random() < 0.5 else tuple(self.name(["a", "b", "z", "_x", "B"]) for _ in range(r.randint(0, 4))),
         template=tuple(pytd.TemplateItem(self.type_param()) for _ in range(r.choice([0, 0, 1, 2]))))
-    if r.random() < 0.3 and (c.methods or c.constants or c.classes):
+    if r.random() < 0.3 and (c.methods or c.constants or c.classes) and len(repr(c)) < 1200:
       c.Get("zz")     # populate the lookup cache: it is part of the class's sort key
     return c
 
@@ -532,6 +541,6 @@ class Gen:
         classes=tuple(self.cls() for _ in range(n(3))),
         functions=tuple(self.function() for _ in range(n(3))),
         aliases=tuple(self.alias() for _ in range(n(3))))
-    if r.random() < 0.2:
+    if r.random() < 0.2 and len(repr(u)) < 2500:
       u.Get("zz")
     return u
